@@ -53,17 +53,24 @@ func main() {
 	}
 	switch os.Args[1] {
 	case "check":
-		os.Exit(cmdCheck(os.Args[2:]))
+		code := cmdCheck(os.Args[2:])
+		unpin()
+		os.Exit(code)
 	case "replay":
-		os.Exit(cmdReplay(os.Args[2:]))
+		code := cmdReplay(os.Args[2:])
+		unpin()
+		os.Exit(code)
 	case "build":
 		_, err := ensureBinary()
 		if err != nil {
 			fmt.Fprintln(os.Stderr, err)
 			os.Exit(2)
 		}
+		unpin()
 	case "selftest":
-		os.Exit(cmdSelftest(os.Args[2:]))
+		code := cmdSelftest(os.Args[2:])
+		unpin()
+		os.Exit(code)
 	default:
 		usage()
 	}
@@ -145,6 +152,61 @@ func treeHash() (string, error) {
 // ensureBinary returns the path of the simulation binary for the current
 // working tree of the repository, building it if needed.
 func ensureBinary() (string, error) {
+	if pinned != "" {
+		return pinned, nil
+	}
+	bin, err := ensureCached()
+	if err != nil {
+		return "", err
+	}
+	// The cache keeps a few trees only and other qsim processes (checks of
+	// other trees) evict entries: this process works on a hard link of its
+	// own, which outlives the eviction, and reads the site list now.
+	siteList, _ = os.ReadFile(filepath.Join(filepath.Dir(bin), "sites.txt"))
+	cache := filepath.Dir(filepath.Dir(bin))
+	sweepPins(cache)
+	link := filepath.Join(cache, fmt.Sprintf("inuse-%d.bin", os.Getpid()))
+	os.Remove(link)
+	if err := os.Link(bin, link); err != nil {
+		data, err2 := os.ReadFile(bin)
+		if err2 != nil {
+			return "", err2
+		}
+		if err2 := os.WriteFile(link, data, 0755); err2 != nil {
+			return "", err2
+		}
+	}
+	pinned = link
+	return pinned, nil
+}
+
+var (
+	pinned   string
+	siteList []byte
+)
+
+// unpin removes this process's link to the simulation binary.
+func unpin() {
+	if pinned != "" {
+		os.Remove(pinned)
+		pinned = ""
+	}
+}
+
+// sweepPins removes the links left by processes that no longer exist.
+func sweepPins(cache string) {
+	ents, _ := os.ReadDir(cache)
+	for _, e := range ents {
+		var pid int
+		if n, _ := fmt.Sscanf(e.Name(), "inuse-%d.bin", &pid); n == 1 && pid != os.Getpid() {
+			if err := syscall.Kill(pid, 0); err == syscall.ESRCH {
+				os.Remove(filepath.Join(cache, e.Name()))
+			}
+		}
+	}
+}
+
+func ensureCached() (string, error) {
 	hash, err := treeHash()
 	if err != nil {
 		return "", fmt.Errorf("qsim: hashing the tree: %v", err)
@@ -1000,14 +1062,10 @@ func writeEvidence(prop, tier string, seed uint64, t *summary, fps, efps map[uin
 // sites never reached are listed on stderr (a diagnostic for workloads).
 func siteReport(hit map[string]int) map[string]interface{} {
 	rep := map[string]interface{}{"measure": "statement positions of the instrumented packages (a yield point precedes every statement) passed by a running goroutine during this batch"}
-	bin, err := ensureBinary()
-	if err != nil {
+	if _, err := ensureBinary(); err != nil || len(siteList) == 0 {
 		return rep
 	}
-	data, err := os.ReadFile(filepath.Join(filepath.Dir(bin), "sites.txt"))
-	if err != nil {
-		return rep
-	}
+	data := siteList
 	type fc struct{ hit, total int }
 	files := map[string]*fc{}
 	var missed []string
